@@ -138,6 +138,25 @@ fn decide(c: &Case, out: &mut CaseOut) -> Result<(), Fail> {
                 log2.entries.get(pos)
             ));
         }
+        // order of thread-local / lazy-static initialisations and destructor runs (serial numbers are per process)
+        let statics = |l: &crate::interp::ExecLog| -> Vec<String> {
+            use crate::interp::Evt;
+            l.evts
+                .iter()
+                .filter_map(|e| match e {
+                    Evt::TlsInit { task, key, .. } => Some(format!("init key {key} in task {task}")),
+                    Evt::TlsDrop { task: Some(t), key, owner, .. } => Some(format!("drop key {key} of task {owner} in task {t}")),
+                    Evt::TlsAccessInDrop { key, owner, result } => Some(format!("destructor of key {key} (task {owner}) reads key 0: {result:?}")),
+                    Evt::LazyInit { task, key, .. } => Some(format!("lazy {key} initialised by task {task}")),
+                    _ => None,
+                })
+                .collect()
+        };
+        let (sa, sb) = (statics(log), statics(log2));
+        if sa != sb {
+            let pos = sa.iter().zip(sb.iter()).position(|(a, b)| a != b).unwrap_or(sa.len().min(sb.len()));
+            return fail(format!("execution {i}: thread-local / lazy-static life cycle differs in the replay at event {pos}: original {:?} vs replay {:?}", sa.get(pos), sb.get(pos)));
+        }
         if engine2[0] != engine[i] {
             return fail(format!("execution {i}: the schedule recorded during the replay differs from the one replayed"));
         }
@@ -189,6 +208,8 @@ fn case_strategy(tier: Tier) -> impl Strategy<Value = Case> {
             cfg.rand = rand;
             cfg.asserts = asserts;
             cfg.poison = poison;
+            // thread-locals with observable destructors, lazy statics, a static Once (replay must reproduce their order)
+            cfg.statics = string_variant == 1 || matches!(family, Family::Threads);
             cfg.max_tasks = if big { tier.pick(4, 6) } else { 3 };
             cfg.max_ops = if big { tier.pick(5, 10) } else { 3 };
             cfg.max_main_ops = tier.pick(3, 6);
